@@ -77,6 +77,18 @@ class BaseCtx:
         if not cond:
             self.fail(sig, msg, **extra)
 
+    def require(self, cond, sig, msg):
+        """cond: python bool or a non-branched symbolic Boolean (see vf.logic). Must hold for every value."""
+        if isinstance(cond, bool):
+            if not cond:
+                self.fail(sig, msg)
+            return
+        self.forall(lambda: (_znot(cond), {}), None, sig, msg)
+
+    def feature_set(self, name, free=None, absent=()):
+        """A set over ProblemKind's feature universe; sym: one solver Boolean per feature in `free` (default all)."""
+        raise NotImplementedError
+
     def forall(self, build, concrete, sig, msg):
         """Claim: no assignment of the second-stage variables violates the property.
 
@@ -100,6 +112,12 @@ class BaseCtx:
         import contextlib
 
         return contextlib.nullcontext()
+
+
+def _znot(cond):
+    import z3
+
+    return z3.Not(cond.var)
 
 
 class ReplayCtx(BaseCtx):
@@ -141,6 +159,9 @@ class ReplayCtx(BaseCtx):
                     raise Violation(sig, msg, {"model": m["model"]})
                 else:
                     self.log.append(f"forall#{i}: recorded model does not violate on real code")
+
+    def feature_set(self, name, free=None, absent=()):
+        return set(self._get(name))
 
     def fresh_env(self):
         from unified_planning.environment import Environment
